@@ -57,7 +57,7 @@ Init ==
   /\ mon = [anySig |-> FALSE, realFail |-> FALSE, firstObs |-> NoObs, finalObs |-> NoObs,
             tbDraws |-> <<>>, gens |-> 0, passes |-> 0, fromFF |-> FALSE, failSeed |-> Zero,
             iters |-> 0, saved |-> NoStream, savedFile |-> "", finalRan |-> FALSE, invs |-> 0,
-            firstKind |-> "none", firstStream |-> NoStream, failDraws |-> <<>>, early |-> FALSE, ffStreams |-> {}]
+            firstKind |-> "none", firstStream |-> NoStream, failDraws |-> <<>>, early |-> FALSE, ffStreams |-> {}, lastClass |-> "none"]
 
 \* all orders of the files present
 SeqsOf(S) == { s \in [1..Cardinality(S) -> S] : \A i, j \in 1..Cardinality(S) : i # j => s[i] # s[j] }
